@@ -26,6 +26,10 @@ class Knobs:
         self.zero_div = True
         self.closure_bias = 0.0       # extra probability of closure declarations / calls per statement
         self.wrap_target = False      # add a method `w` (C15: wrapped as plain / generator / async by the check)
+        self.assign_expr = True       # assignments used as expressions
+        self.early_return = True      # `return` statements before the end of a body
+        self.nilable = True           # Int? locals / parameters and `??`
+        self.print_types = None       # restrict the types of printed expressions (default: all)
         self.deep_rec = 0             # >0: add a recursive method `fdeep` and call it with depths up to this
         self.d14_shapes = False       # abrupt exits from catch bodies of a `do` that has a `finally`
         self.__dict__.update(kw)
@@ -149,7 +153,7 @@ class Gen:
             call = self.call_int(sc, d, ctx)
             if call:
                 return call
-        if c < 0.94:
+        if c < 0.94 and self.k.assign_expr:
             ms = self.vars_of(sc, INT, True)
             if ms:
                 self.features.add("assign-expr")
@@ -294,7 +298,7 @@ class Gen:
                 return f"(expr (assign {self.pick(ms)} {self.int_expr(sc, 2, ctx)}))"
             return self.decl(sc, d, ctx)
         if c < 0.5:
-            ty = self.pick([INT, INT, BOOL, STR, OINT])
+            ty = self.pick(self.k.print_types or [INT, INT, BOOL, STR, OINT])
             if ty == OINT:   # `inspect` is not defined on `Int?` in Elk: observe through `??`
                 return f"(print (nilco {self.expr(sc, OINT, 2, ctx)} (int -99)))"
             return f"(print {self.expr(sc, ty, 2, ctx)})"
@@ -322,7 +326,7 @@ class Gen:
         if ctx["loops"]:
             opts += ["brk", "cont"]
         # known finding C15-generator-return-skips-finally: no `return` inside a `do` of the wrapped body
-        if ctx["in_fn"] and not (ctx.get("in_w") and ctx.get("in_try")):
+        if ctx["in_fn"] and self.k.early_return and not (ctx.get("in_w") and ctx.get("in_try")):
             opts += ["ret"]
         if self.k.exceptions and (ctx["in_fn"] or ctx.get("in_try") or self.r.random() < 0.15):
             opts += ["throw"]
@@ -363,7 +367,7 @@ class Gen:
             ty, ann = BOOL, "_"
         elif c < 0.7:
             ty, ann = STR, "_"
-        elif c < 0.8:
+        elif c < 0.8 and self.k.nilable:
             ty, ann = OINT, OINT
         elif self.k.closures:
             ps = [self.pick([INT, INT, BOOL]) for _ in range(r.randint(0, 2))]
@@ -442,7 +446,7 @@ class Gen:
         ndefs = r.randint(0, self.k.defs)
         sigs = []
         for i in range(ndefs):
-            ps = [(self.fresh("p"), self.pick([INT, INT, BOOL, OINT])) for _ in range(r.randint(0, 3))]
+            ps = [(self.fresh("p"), self.pick([INT, INT, BOOL, OINT] if self.k.nilable else [INT, INT, BOOL])) for _ in range(r.randint(0, 3))]
             ret = self.pick([INT, INT, INT, BOOL])
             if self.k.closures and r.random() < 0.25:
                 ret = fn_ty([self.pick([INT])] if r.random() < 0.6 else [], INT)
@@ -480,7 +484,10 @@ class Gen:
         for name, ps, ret, rank in sigs:
             if ret in (INT, BOOL):
                 args = " ".join(self.expr(sc, t, 1, ctx) for _, t in ps)
-                main += f" (print (calld {name} {args}))".replace(" )", ")")
+                if ret == BOOL and self.k.print_types and "bool" not in self.k.print_types:
+                    main += f" (if (calld {name} {args}) ((print (int 1))) ((print (int 0))))".replace(" )", ")")
+                else:
+                    main += f" (print (calld {name} {args}))".replace(" )", ")")
             elif ret.startswith("(fn"):
                 args = " ".join(self.expr(sc, t, 1, ctx) for _, t in ps)
                 cps = self.fn_params(ret)
